@@ -285,6 +285,47 @@ func checkArith(c *h.Ctx, op string, l, r operand) {
 	default:
 		c.Held("exists-mode")
 	}
+	// ... and is a suppressible failure wherever it stands: as an array
+	// subscript it fails the accessor when reported, ends the query quietly
+	// under WithSilent, and makes a condition that needs it unknown
+	if o.Class == h.Soft {
+		sdoc := map[string]any{"arr": []any{10.0, 20.0, 30.0}}
+		for k, v := range doc {
+			sdoc[k] = v
+		}
+		for _, form := range []string{"$.arr[%s]", "$.arr[0 to %s]", "strict $.arr[%s, 0]", "$.arr[0, %s]"} {
+			ftxt := fmt.Sprintf(form, ptxt)
+			fp := cachedPath(ftxt)
+			if fp == nil {
+				continue
+			}
+			fcs := cs
+			fcs.Path = ftxt
+			ov := h.Call("query", fp, sdoc, h.Opts{})
+			os := h.Call("query", fp, sdoc, h.Opts{Silent: true})
+			oe := h.Call("exists", fp, sdoc, h.Opts{Silent: true})
+			c.Eval(3)
+			switch {
+			case ov.Class == h.Panic || os.Class == h.Panic || oe.Class == h.Panic || ov.Class == h.Invalid:
+				c.Skip("after-failure", "panic-or-invalid-is-C05")
+			case ov.Class != h.Soft || os.Class != h.OK || (oe.Class != h.Null && oe.Class != h.OK):
+				c.Violate("after-failure", h.F("op", op, "form", form, "verbose", ov.Class, "silent", os.Class, "silent-exists", oe.Class), fmt.Sprintf("query(%s) fails with %s; as a subscript, %s: reported %s, under WithSilent Query %s and Exists %s", ptxt, o.ErrText(), ftxt, ov.Summary(), os.Summary(), oe.Summary()), fcs)
+			default:
+				c.Held("after-failure")
+			}
+		}
+		if fp := cachedPath("$ ? (@.arr[" + ptxt + "] == 10 || @.arr[0 to " + ptxt + "] > 0)"); fp != nil {
+			of := h.Call("query", fp, sdoc, h.Opts{})
+			c.Eval(1)
+			if of.Class != h.Panic && of.Class != h.Invalid && (of.Class != h.OK || len(of.Items) != 0) {
+				fcs := cs
+				fcs.Path = "$ ? (@.arr[" + ptxt + "] == 10 || @.arr[0 to " + ptxt + "] > 0)"
+				c.Violate("after-failure", h.F("op", op, "form", "subscript-in-filter", "got", of.Class), fmt.Sprintf("query(%s) fails with %s; a condition that subscripts with it is unknown, but %s returned %s", ptxt, o.ErrText(), fcs.Path, of.Summary()), fcs)
+			} else {
+				c.Held("after-failure")
+			}
+		}
+	}
 	// an operation that fails (out of range, division by zero) fails whatever
 	// is written after it: steps after the parenthesised expression never get
 	// an item, nor does an operator or a filter around it
